@@ -1026,6 +1026,20 @@ def _gen_degenerate(rng, n):
     add(one(1, element="C", charge=0), one(1, element="C", charge=0, hcount=0))          # hcount absent on one side only
     add(one(1, element="C", charge=0, hcount=0), one(1, element="C"))                    # charge absent on the pattern only
     add(one(0, element="C", charge=0, hcount=0), one(0, element="C", charge=0, hcount=0))    # node id 0
+    # absent attribute vs the "natural default" value: None != 1, None != 0, None != "" (no default is substituted)
+    cc = lambda o1, **kw: {"nodes": [[1, dict(element="C", charge=0, hcount=0)], [2, dict(element="C", charge=0, hcount=0)]],
+                           "edges": [[1, 2, ({} if o1 is None else {"order": o1})]]}
+    for ho, po in ((1, None), (None, 1), (None, None), (0, None), ("", None), (1, 1.0), (2, 1)):
+        add(cc(ho), cc(po))
+    for hv, pv in ((0, None), (None, 0), ("", None), (None, None), (False, 0), (0, "")):
+        hn = dict(element="C", hcount=0); pn = dict(element="C", hcount=0)
+        if hv is not None or (hv, pv) == (None, None):
+            pass
+        if hv is not None:
+            hn["charge"] = hv
+        if pv is not None:
+            pn["charge"] = pv
+        add({"nodes": [[1, hn]], "edges": []}, {"nodes": [[1, pn]], "edges": []})
     while len(out) < n:
         r = len(out) % 4
         if r == 0:      # pattern larger than host / than every host component
@@ -1059,7 +1073,7 @@ def _gen_degenerate(rng, n):
             h = {"nodes": [[i * 10 ** rng.randint(0, 6), dict(element=rng.choice("CO"), charge=0, hcount=rng.randint(0, 1))] for i in range(k)], "edges": []}
             p = {"nodes": [[i, dict(element=rng.choice("CO"), charge=0, hcount=0)] for i in range(rng.randint(0, 3))], "edges": []}
             add(h, p)
-    return out[:max(n, 7)]
+    return out[:max(n, 20)]
 
 
 def _gen_big(rng, n):
@@ -1164,8 +1178,9 @@ def gen_cases(tier, rng):
     hosts = cls[1] + cls[2] + cls[3] + (cls[4] if tier == "thorough" else [])
     pats = cls[1] + cls[2]
     for h in hosts:
+        hshared = _present(h, rng) if not q else None     # thorough: one presentation per host class (memory: 329 426 cases)
         for p in pats:
-            hh = _present(h, rng)
+            hh = hshared or _present(h, rng)
             cases.append(dict(kind="exh", host=hh, pattern=_disjoint(hh, _present(p, rng), rng), na=NA_DEFAULT, ea=EA_DEFAULT,
                               cfgs=SET_CFGS, vf2=None))
     # ---- sampled hosts <= 4 x patterns <= 3
